@@ -250,10 +250,24 @@ func (r *MDNS) removeOldestEntry() {
 		}
 	}
 	if oldestName != "" {
-		addrs := r.addrs[oldestName].values
+		addrs := r.names[oldestName].values
 		delete(r.names, oldestName)
 		for _, addr := range addrs {
-			removeEntry(r.addrs, addr, oldestName)
+			// r.addrs holds names as announced while oldestName is the
+			// lower-cased key: drop every spelling of that name.
+			entry := r.addrs[addr]
+			values := make([]string, 0, len(entry.values))
+			for _, v := range entry.values {
+				if prepareHostLookup(v) != oldestName {
+					values = append(values, v)
+				}
+			}
+			if len(values) == 0 {
+				delete(r.addrs, addr)
+			} else {
+				entry.values = values
+				r.addrs[addr] = entry
+			}
 		}
 	}
 }
@@ -317,21 +331,6 @@ func addEntry(entries map[string]mdnsEntry, key, value string) {
 	entry.values = appendUniq(entry.values, value)
 	entry.lastUpdate = time.Now()
 	entries[key] = entry
-}
-
-func removeEntry(entries map[string]mdnsEntry, key, value string) {
-	entry := entries[key]
-	for i, v := range entry.values {
-		if v == value {
-			entry.values = append(entry.values[:i], entry.values[i+1:]...)
-			break
-		}
-	}
-	if len(entry.values) == 0 {
-		delete(entries, key)
-	} else {
-		entries[key] = entry
-	}
 }
 
 func getHeader(p *dnsmessage.Parser, sec int) (dnsmessage.ResourceHeader, error) {
